@@ -246,12 +246,14 @@ theorem drive_reach (m : SM σ α) (c : Bool) (fuel : Nat) (s : σ) : ∃ cs, (d
 
 theorem collect_reach (m : SM σ α) (c : Bool) (fuel : Nat) (s : σ) (h : stCollectDefersClose = true := by decide) :
     ∃ cs, (collect m c fuel s).2 = m.close (afterS m cs s) := by
+  have _tie := Skeleton.Tie.stCollect
   obtain ⟨cs, hcs⟩ := reduceLoop_reach m (fun (acc : List α) a => .ok (acc ++ [a])) c fuel [] s
   exact ⟨cs, by simp only [collect, deferClose, h, if_true, hcs]⟩
 
 theorem reduce_reach {δ : Type x} (m : SM σ α) (f : δ → α → Except Err δ) (c : Bool) (fuel : Nat) (init : δ) (s : σ)
     (h : stReduceDefersClose = true := by decide) :
     ∃ cs, (reduce m f c fuel init s).2 = m.close (afterS m cs s) := by
+  have _tie := Skeleton.Tie.stReduce
   obtain ⟨cs, hcs⟩ := reduceLoop_reach m f c fuel init s
   exact ⟨cs, by simp only [reduce, deferClose, h, if_true, hcs]⟩
 
@@ -262,6 +264,7 @@ theorem sample_reach (m : SM σ α) (c : Bool) (fuel : Nat) (s : σ) (h : sample
 
 theorem last_reach (m : SM σ α) (n : Int) (c : Bool) (fuel : Nat) (s : σ) (h : stLastDefersClose = true := by decide) :
     ∃ cs, (last m n c fuel s).2 = m.close (afterS m cs s) := by
+  have _tie := Skeleton.Tie.stLast
   by_cases hn : n < 0
   · exact ⟨[], by simp [last, hn, deferClose, h, afterS]⟩
   · obtain ⟨cs, hcs⟩ := lastLoop_reach m n c fuel (List.replicate n.toNat none) 0 s
@@ -269,6 +272,7 @@ theorem last_reach (m : SM σ α) (n : Int) (c : Bool) (fuel : Nat) (s : σ) (h 
 
 theorem one_reach (m : SM σ α) (c : Bool) (fuel : Nat) (s : σ) (h : stOneDefersClose = true := by decide) :
     ∃ cs, (one m c fuel s).2 = m.close (afterS m cs s) := by
+  have _tie := Skeleton.Tie.stOne
   obtain ⟨cs1, h1⟩ := drive_reach m c fuel s
   obtain ⟨cs2, h2⟩ := drive_reach m c fuel (drive m c fuel s).2
   simp only [one, deferClose, h, if_true]
@@ -392,6 +396,7 @@ theorem flatten_inner_closed_once {mo : SM σ (Src α)}
     (so : σ) (cs : List Bool) (hK : stFlattenCloseCurr = true := by decide) :
     let st' := (flatten mo src).close (afterS (flatten mo src) cs ⟨so, none, []⟩)
     ∀ x ∈ st'.finished ++ st'.curr.toList, Closed1 x := by
+  have _tie := Skeleton.Tie.stFlatten
   have hinv : FlatInv (afterS (flatten mo (src (α := α))) cs ⟨so, none, []⟩) :=
     flatten_inv_afterS hfresh ⟨fun x hx => by simp at hx, fun x hx => by simp at hx⟩ cs
   generalize afterS (flatten mo (src (α := α))) cs ⟨so, none, []⟩ = st at hinv
@@ -456,6 +461,7 @@ theorem join_rest_closed_once (ss : List (Src α)) (hss : ∀ x ∈ ss, Open0 x)
     (hF : stJoinCloseForwards = true := by decide) :
     let st' := (join src).close (afterS (join src) cs ⟨ss, []⟩)
     ∀ x ∈ st'.finished ++ st'.remaining, Closed1 x := by
+  have _tie := Skeleton.Tie.stJoin
   have hinv : JoinInv (afterS (join (src (α := α))) cs ⟨ss, []⟩) := by
     have base : JoinInv (⟨ss, []⟩ : JoinSt (Src α)) := ⟨fun x hx => by simp at hx, hss⟩
     generalize (⟨ss, []⟩ : JoinSt (Src α)) = st0 at base
